@@ -535,6 +535,16 @@ func isObserveResponse(msg *pool.Message) bool {
 	return msg.Code() >= codes.Created
 }
 
+// isResponseContinuation reports whether msg asks for a block other than the first one of a response (Block2 with NUM > 0).
+func isResponseContinuation(msg *pool.Message) bool {
+	block, err := msg.GetOptionUint32(message.Block2)
+	if err != nil {
+		return false
+	}
+	_, num, _, err := DecodeBlockOption(block)
+	return err == nil && num != 0
+}
+
 func (b *BlockWise[C]) startSendingMessage(w *responsewriter.ResponseWriter[C], maxSZX SZX, maxMessageSize uint32, block uint32) error {
 	payloadSize, err := w.Message().BodySize()
 	if err != nil {
@@ -752,6 +762,10 @@ func (b *BlockWise[C]) processReceivedMessage(w *responsewriter.ResponseWriter[C
 	block, err := r.GetOptionUint32(blockType)
 	if err != nil {
 		if errors.Is(err, message.ErrOptionNotFound) {
+			if blockType == message.Block1 && isResponseContinuation(r) {
+				// the request body was consumed with the response we no longer hold (duplicate, stale or replayed request)
+				return errors.New("received request for next block of response without previous blocks")
+			}
 			next(w, r)
 			return nil
 		}
